@@ -200,6 +200,50 @@ theorem tokenCodes_lt (tt : TypeTable) (e sh : Nat) : ∀ x ∈ tt.tokenCodes e 
     rcases hx with (hx | hx) | hx <;> exact unpack_lt _ _ x hx
   · exact unpack_lt _ _ x hx
 
+theorem isWs_toNat_le {c : Char} (h : isWs c = true) : c.toNat ≤ 32 := by
+  simp only [isWs, Bool.or_eq_true, decide_eq_true_eq] at h
+  rcases h with ((((((((h | h) | h) | h) | h) | h) | h) | h) | h) | h <;> subst h <;> decide
+
+/-- printable codes give a token of the text layer -/
+theorem tok_strOf_of_codesTok {c : Codes} (h : codesTok c = true) : Tok (strOf c) := by
+  simp only [codesTok, Bool.and_eq_true, Bool.not_eq_true', List.isEmpty_eq_false_iff, List.all_eq_true,
+    Nat.blt_eq] at h
+  obtain ⟨hne, hall⟩ := h
+  refine ⟨?_, ?_⟩
+  · simp only [strOf, ne_eq, List.map_eq_nil_iff]; exact hne
+  · intro ch hch
+    simp only [strOf, List.mem_map] at hch
+    obtain ⟨x, hx, rfl⟩ := hch
+    have := hall x hx
+    cases hw : isWs (Char.ofNat x) with
+    | false => rfl
+    | true =>
+      have h32 := isWs_toNat_le hw
+      rw [toNat_ofNat_of_lt (by omega)] at h32
+      omega
+
+theorem tokensOk_spec (tt : TypeTable) (h : tt.tokensOk = true) (s : St) (hs : InRange tt s) : Tok (tt.emitStr s) := by
+  have := (emitted_of_inRange tt h s hs).1
+  exact tok_strOf_of_codesTok this
+
+theorem symsOk_spec (tt : TypeTable) (h : tt.symsOk = true) (e : Nat) (he : e < tt.nE) :
+    Tok (strOf (tt.sym e)) ∧ strOf (tt.sym e) ≠ ['*'] := by
+  have := allBelow_spec h e he
+  simp only [Bool.and_eq_true, Bool.not_eq_true'] at this
+  obtain ⟨h1, h2⟩ := this
+  refine ⟨tok_strOf_of_codesTok h1, ?_⟩
+  intro hstar
+  have hc : codesOf (strOf (tt.sym e)) = [42] := by rw [hstar]; rfl
+  have hlt : ∀ x ∈ tt.sym e, x < 256 := by
+    intro x hx; simp only [sym] at hx; exact unpack_lt _ _ x hx
+  rw [codesOf_strOf hlt] at hc
+  rw [hc] at h2
+  exact Bool.noConfusion h2
+
+theorem bondTokensOk_spec (bt : BondTable) (h : bt.tokensOk = true) (b : Nat) (hb : b < bt.nB) : Tok (bt.emitStr b) := by
+  have := allBelow_spec h b hb
+  exact tok_strOf_of_codesTok this
+
 /-- reading the text of a token is reading its codes -/
 theorem acceptStr_emitStr (tt : TypeTable) (s : St) :
     tt.acceptStr (tt.emitStr s) = tt.setMol2Type tt.dflt (tt.emitCodes s) := by
